@@ -100,3 +100,9 @@ Proof. exact x_config_fields_plain. Qed.
 Print Assumptions C17_src_options_reach_config.
 Print Assumptions C17_src_pin_main_main.
 Print Assumptions C17_src_pin_main_expand_sources.
+
+(* ---- more glue on this property's path, pinned token for token ---- *)
+From XcpPins Require Import Pin_operations_tree_walker.
+Theorem C17_src_pin_operations_tree_walker : pin_unchanged name_operations_tree_walker.
+Proof. exact pin_operations_tree_walker. Qed.
+Print Assumptions C17_src_pin_operations_tree_walker.
